@@ -469,37 +469,51 @@ def addMatExts (th : Nat → Option PTexture) (w : W) : List PMatExt → Except 
       | .error x => .error x
       | .ok (w2, l) => .ok (w2, { id := e.id, payload := e.payload, texs := tis } :: l)
 
-/-- `AddMaterial`; returns the material index -/
+/-- the glTF material built from a polyform material and the texture infos returned by `AddTexture` -/
+def buildMaterial (m : PMaterial) (bct mrt : Option TexInfo) (exts : List GMatExt) (nt ot : Option TexInfo) : GMaterial :=
+  { name := m.name, alphaMode := m.alphaMode, alphaCutoff := m.alphaCutoff
+    baseColorFactor := if m.hasPbr then (match m.baseColor with
+                                         | some c => c.map colorFactor
+                                         | none => [one64, one64, one64, one64]) else [one64, one64, one64, one64]
+    metallic := if m.hasPbr then m.metallic else none
+    roughness := if m.hasPbr then m.roughness else none
+    baseColorTex := bct, metalRoughTex := mrt
+    emissive := m.emissive.map (fun c => (c.take 3).map colorFactor)
+    normalTex := match nt, m.normalTex with
+      | some ti, some (_, s) => some (ti, s)
+      | _, _ => none
+    occlusionTex := match ot, m.occlusionTex with
+      | some ti, some (_, s) => some (ti, s)
+      | _, _ => none
+    exts := exts }
+
+/-- `AddMaterial`; returns the material index.  Order of effects as in the Go code: tracker lookup, base-colour and
+    metallic-roughness textures, extensions (their textures, then `extensionsUsed`), alphaCutoff check, normal and
+    occlusion textures, append. -/
 def addMaterial (th : Nat → Option PTexture) (w : W) (m : PMaterial) : Except Err (W × Nat) :=
   match findIdx (fun e => PMaterial.equal th e.1 m) w.matIdx 0 with
   | some k => match w.matIdx[k]? with
     | some e => .ok (w, e.2)
     | none => .error .badId      -- unreachable (findIdx returns a valid position)
-  | none => do
-    let (w, bct) ← addTexOpt th w (if m.hasPbr then m.baseColorTex else none)
-    let (w, mrt) ← addTexOpt th w (if m.hasPbr then m.metalRoughTex else none)
-    let (w, exts) ← addMatExts th w m.exts
+  | none =>
+    match addTexOpt th w (if m.hasPbr then m.baseColorTex else none) with
+    | .error e => .error e
+    | .ok r1 =>
+    match addTexOpt th r1.1 (if m.hasPbr then m.metalRoughTex else none) with
+    | .error e => .error e
+    | .ok r2 =>
+    match addMatExts th r2.1 m.exts with
+    | .error e => .error e
+    | .ok r3 =>
     if m.alphaCutoff.isSome && m.alphaMode != some "MASK" then .error .alphaCutoff else
-    let (w, nt) ← addTexOpt th w (m.normalTex.map (·.1))
-    let (w, ot) ← addTexOpt th w (m.occlusionTex.map (·.1))
-    let g : GMaterial := {
-      name := m.name, alphaMode := m.alphaMode, alphaCutoff := m.alphaCutoff
-      baseColorFactor := if m.hasPbr then (match m.baseColor with
-                                           | some c => c.map colorFactor
-                                           | none => [one64, one64, one64, one64]) else [one64, one64, one64, one64]
-      metallic := if m.hasPbr then m.metallic else none
-      roughness := if m.hasPbr then m.roughness else none
-      baseColorTex := bct, metalRoughTex := mrt
-      emissive := m.emissive.map (fun c => (c.take 3).map colorFactor)
-      normalTex := match nt, m.normalTex with
-        | some ti, some (_, s) => some (ti, s)
-        | _, _ => none
-      occlusionTex := match ot, m.occlusionTex with
-        | some ti, some (_, s) => some (ti, s)
-        | _, _ => none
-      exts := exts }
-    let index := w.materials.length
-    .ok ({ w with materials := w.materials ++ [g], matIdx := w.matIdx ++ [(m, index)] }, index)
+    match addTexOpt th r3.1 (m.normalTex.map (·.1)) with
+    | .error e => .error e
+    | .ok r4 =>
+    match addTexOpt th r4.1 (m.occlusionTex.map (·.1)) with
+    | .error e => .error e
+    | .ok r5 =>
+      .ok ({ r5.1 with materials := r5.1.materials ++ [buildMaterial m r1.2 r2.2 r3.2 r4.2 r5.2],
+                       matIdx := r5.1.matIdx ++ [(m, r5.1.materials.length)] }, r5.1.materials.length)
 
 /-! ### AddScene -/
 
@@ -519,29 +533,38 @@ def addInstances (w : W) (inst : List (List Nat)) : W × Option (List (String ×
   let w := writeVec w .f32 4 (inst.map (fun t => (t.drop 6).take 4))
   (w, some (mapInsert (mapInsert (mapInsert [] "TRANSLATION" a0) "SCALE" a1) "ROTATION" a2))
 
+/-- material of a model resolved to a material index (`AddMesh` calls `AddMaterial` first) -/
+def addModelMaterial (s : Scene) (w : W) (md : Model) : Except Err (W × Option Nat) :=
+  match md.material with
+  | none => .ok (w, none)
+  | some k => match s.matHeap[k]? with
+    | none => .error .badId
+    | some pm => match addMaterial (fun i => s.texHeap[i]?) w pm with
+      | .error e => .error e
+      | .ok r => .ok (r.1, some r.2)
+
+/-- the node of a model -/
+def modelNode (md : Model) (meshIndex : Nat) (inst : Option (List (String × Nat))) : GNode :=
+  { name := md.name, mesh := some meshIndex, translation := md.translation, rotation := md.rotation, scale := md.scale,
+    inst := inst }
+
 /-- one iteration of the model loop of `AddScene` (skeleton / animations are outside the model) -/
-def addModel (s : Scene) (w : W) (md : Model) : Except Err W := do
-  let id ← match md.mesh with
-    | some id => pure id
-    | none => .error .nilMesh
-  let m ← getAt s.meshHeap id
-  if m.primitiveCount = 0 then pure w else     -- AddMesh returns -1 before touching the material
-  let (w, mat) ← match md.material with
-    | none => pure (w, none)
-    | some k => do
-      let pm ← getAt s.matHeap k
-      let r ← addMaterial (fun i => s.texHeap[i]?) w pm
-      pure (r.1, some r.2)
-  let (w, mi) := addMesh w md.name id m mat
-  match mi with
-  | none => pure w
-  | some meshIndex =>
-    let nodeIndex := w.nodes.length
-    let (w, inst) := addInstances w md.instances
-    pure { w with
-      nodes := w.nodes ++ [{ name := md.name, mesh := some meshIndex, translation := md.translation,
-                             rotation := md.rotation, scale := md.scale, inst := inst }]
-      scene := w.scene ++ [nodeIndex] }
+def addModel (s : Scene) (w : W) (md : Model) : Except Err W :=
+  match md.mesh with
+  | none => .error .nilMesh
+  | some id => match s.meshHeap[id]? with
+    | none => .error .badId
+    | some m =>
+      if m.primitiveCount = 0 then .ok w else     -- AddMesh returns -1 before touching the material
+      match addModelMaterial s w md with
+      | .error e => .error e
+      | .ok r =>
+        let a := addMesh r.1 md.name id m r.2
+        match a.2 with
+        | none => .ok a.1
+        | some meshIndex =>
+          let i := addInstances a.1 md.instances
+          .ok { i.1 with nodes := i.1.nodes ++ [modelNode md meshIndex i.2], scene := i.1.scene ++ [a.1.nodes.length] }
 
 def addLight (w : W) (pos : List Nat) : W :=
   { w with
